@@ -106,7 +106,7 @@ MACROS['but_cterm_same'] = (['a', 'b'], ' and '.join('same(a.%s, b.%s)' % (f, f)
 for _t, _pos in (('nterm', '0'), ('cterm', 'len(sequence._sequence) - 1')):
     C[PA + 'add_%s_mods' % _t] = dict(
         params=dict(self='Annotation', mods='ModList', append='bool'), returns='None', mutates=['self'], trusted=True,
-        bounded_by='terminal stores: bounded/C20.py, bounded/C13.py', raises={},
+        bounded_by='proved (with more clauses) against the real bodies in contracts/stores.py', raises={},
         ensures=[('terminus-modified', 'self_final._%s_mods is not None' % _t), ('nothing-else', 'but_%s_same(self_final, self)' % _t)])
     _RULES = '%s_mods' % _t
     _HIT = ('exists(lambda r=str: (r in RULES0) and (True if fix_list_of_mods(RULES0[r]) else False) and '
